@@ -125,7 +125,7 @@ def process(pid, module, tier, o, findings_db):
             events.append(("VIOLATION", o.name, path))
         else:
             rec["status"] = "MODEL-MISMATCH"
-            events.append(("HARNESS-ERROR", o.name, "counterexample %s does not reproduce on the real code (%s)" % (main["args"], outcome)))
+            events.append(("HARNESS-ERROR", o.name, "counterexample %s does not reproduce on the real code (%s)" % (str(main["args"])[:300], outcome)))
     elif main.get("status") == "UNKNOWN":
         msgs = main.get("messages") or []
         if msgs:
